@@ -1266,7 +1266,53 @@ func c02TraceCases(cases []c02CaseIn, extraStrace []string) ([]c02CaseOut, error
 
 // Go's File.Write retries a short write; the retry fails (EFBIG/ENOSPC).  The pair is one logical
 // write with result `short n`.
+// c02SplitHeaderName: what matters is the effect on the file, not the syscall boundaries — a new
+// file's header and swamp name written by ONE write(2) are the same two operations as far as the
+// model is concerned (header at 0, name at 64).
+func c02SplitHeaderName(s c02Sys) []c02Sys {
+	full := s.Data
+	if len(s.Req) == s.Want && s.Want > 0 {
+		full = s.Req
+	}
+	if s.Op != "write" || s.Off != 0 || s.Want <= 64 || len(full) < 64 || string(full[:4]) != "HYDR" ||
+		int(binary.LittleEndian.Uint16(full[44:46])) != s.Want-64 {
+		return []c02Sys{s}
+	}
+	h, n := s, s
+	h.Want, n.Want, n.Off = 64, s.Want-64, 64
+	cut := func(b []byte, from, to int) []byte {
+		if from > len(b) {
+			from = len(b)
+		}
+		if to > len(b) {
+			to = len(b)
+		}
+		return b[from:to]
+	}
+	h.Data, n.Data = cut(s.Data, 0, 64), cut(s.Data, 64, s.Want)
+	if len(s.Req) > 0 {
+		h.Req, n.Req = cut(s.Req, 0, 64), cut(s.Req, 64, s.Want)
+	}
+	switch {
+	case s.Res == "ok":
+		return []c02Sys{h, n}
+	case len(s.Data) < 64: // failed inside the header: the name was never attempted
+		return []c02Sys{h}
+	case len(s.Data) == 64:
+		h.Res, n.Res = "ok", "err"
+		return []c02Sys{h, n}
+	default:
+		h.Res = "ok"
+		return []c02Sys{h, n}
+	}
+}
+
 func c02MergeShort(sys []c02Sys) []c02Sys {
+	var split []c02Sys
+	for _, s := range sys {
+		split = append(split, c02SplitHeaderName(s)...)
+	}
+	sys = split
 	var out []c02Sys
 	for i := 0; i < len(sys); i++ {
 		s := sys[i]
